@@ -6,7 +6,7 @@
      helpers reached from every pair - thorough: also every triple - of lifecycle subroutines). *)
 From Coq Require Import NArith List String Bool.
 From Falco Require Import Base.TablesBase Model.ScopeMask Model.LintTables Model.LintOps Model.TablesDomain Model.InterpAssign.
-From Falco Require Import Gen.ObsVars Gen.ObsCoerce Gen.ObsInferred Gen.KnownGaps.
+From Falco Require Import Gen.ObsVars Gen.ObsOps Gen.ObsCoerce Gen.ObsInferred Gen.KnownGaps.
 From Falco Require Import Proofs.TablesProofs.
 Import ListNotations.
 Local Open Scope N_scope.
@@ -70,17 +70,47 @@ Theorem lint_sub_interp_coerce_refuted : exists cx e lint interp p t form,
   In (cx, e, lint, interp) obs_coerce /\ In (p, t, form) op_cells_existing /\
   N.testbit lint p = true /\ N.testbit interp p = false.
 Proof.
-  (* return <STRING variable>; in a functional subroutine of return type IP: position 8*2+1 = 17 *)
+  (* return <STRING variable>; in a functional subroutine of return type IP: position 14*2+1 = 29 *)
   destruct (find (fun r => match r with (cx, e, lint, interp) =>
-                    String.eqb cx "ret" && String.eqb e "IP" && N.testbit (N.ldiff lint interp) 17 end) obs_coerce)
+                    String.eqb cx "ret" && String.eqb e "IP" && N.testbit (N.ldiff lint interp) 29 end) obs_coerce)
     as [[[[cx e] lint] interp]|] eqn:E.
-  - exists cx, e, lint, interp, 17, "STRING", "local".
+  - exists cx, e, lint, interp, 29, "STRING", "local".
     pose proof (find_some _ _ E) as [Hin Hb].
     apply andb_true_iff in Hb. destruct Hb as [_ Hb].
     rewrite N.ldiff_spec in Hb. apply andb_true_iff in Hb.
     destruct Hb as [Hl Hi]. apply negb_true_iff in Hi.
     split; [exact Hin|]. split; [vm_compute; tauto|]. split; assumption.
   - vm_compute in E. discriminate.
+Qed.
+
+(* ================================================================ provenance of the left operand *)
+Theorem obs_ops_left_domain : map (fun r => match r with (op, l, lp, _, _) => (op, l, lp) end) obs_ops_left = opl_rows.
+Proof. vm_compute. reflexivity. Qed.
+
+Definition opl_check (r : string * string * string * N * N) (c : N * string * string) : bool :=
+  match r, c with (op, lty, lp, lint, interp), (p, rty, form) =>
+    Bool.eqb (lint_op_model op lty rty form) (N.testbit lint p)
+    && Bool.eqb (interp_op_model_left op lty lp rty form) (N.testbit interp p)
+    && limp (N.testbit lint p) (N.testbit interp p) (fun _ => gap_covers "opl-interp" op (String.append lty (String.append ":" lp)) p)
+  end.
+Lemma opl_check_ok : forallb (fun r => forallb (opl_check r) op_cells_left) obs_ops_left = true.
+Proof. vm_cast_no_check (eq_refl true). Qed.
+
+(* the left operand (assignment target, left side of a comparison) is a local variable that got its value by a
+   declaration with initialiser, from another variable, by a compound operator, never, or inside an if block:
+   both the linter and the simulator decide exactly as the models do for a plain local - the provenance of a
+   variable does not matter - and the inclusion holds *)
+Theorem ops_left_models_eq_observed : forall op lty lp lint interp p rty form,
+  In (op, lty, lp, lint, interp) obs_ops_left -> In (p, rty, form) op_cells_left ->
+  lint_op_model op lty rty form = N.testbit lint p /\ interp_op_model_left op lty lp rty form = N.testbit interp p /\
+  (N.testbit lint p = true ->
+   N.testbit interp p = true \/ gap_covers "opl-interp" op (String.append lty (String.append ":" lp)) p = true).
+Proof.
+  intros op lty lp lint interp p rty form Hr Hc.
+  pose proof (forallb2_lift _ _ _ _ _ opl_check_ok _ _ Hr Hc) as C. unfold opl_check in C.
+  apply andb_true_iff in C. destruct C as [C C3]. apply andb_true_iff in C. destruct C as [C1 C2].
+  split; [apply eqb_prop; exact C1|]. split; [apply eqb_prop; exact C2|].
+  intro Hl. exact (limp_or _ _ _ C3 Hl).
 Qed.
 
 (* ================================================================ scopes by call-graph inference *)
